@@ -1,0 +1,23 @@
+//go:build verif
+
+package index
+
+import (
+	"context"
+
+	"github.com/ipld/go-storethehash/store/types"
+)
+
+// VerifBuckets returns a copy of the in-memory bucket table.
+func (idx *Index) VerifBuckets() []types.Position {
+	idx.bucketLk.RLock()
+	defer idx.bucketLk.RUnlock()
+	out := make([]types.Position, len(idx.buckets))
+	copy(out, idx.buckets)
+	return out
+}
+
+// VerifGC runs one index GC cycle synchronously.
+func (idx *Index) VerifGC(ctx context.Context, scanFree bool) (int64, int, error) {
+	return idx.gc(ctx, scanFree)
+}
